@@ -116,6 +116,15 @@ func init() {
 		g := arch.NewArchApp().Analysis(deps, identMap)
 		an, ar := graphObs(g)
 		g2 := g
+		if len(deps)%2 == 1 {
+			// every other graph has been merged before, by the OTHER function (a fan table was printed, another view
+			// drawn): a merge is judged on the graph and the function it is given, whatever was computed on it earlier
+			if kind == "package" {
+				_ = g.MergeHeaderFile(tequila.MergeHeaderFunc)
+			} else {
+				_ = g.SortedByFan(tequila.MergePackageFunc)
+			}
+		}
 		switch kind {
 		case "header":
 			g2 = g.MergeHeaderFile(tequila.MergeHeaderFunc)
